@@ -83,6 +83,14 @@ def transform_weather(df, tr):
         extra = pd.DataFrame({"MinTemp": [-3.0] * n, "MaxTemp": [48.0] * n, "Precipitation": [77.0] * n, "ReferenceET": [0.3] * n,
                               "Date": pd.date_range(last + pd.Timedelta(days=1), periods=n, freq="D")})
         df = pd.concat([df, extra], ignore_index=True)
+    if tr.get("pad_sparse"):            # leading / trailing records outside the window that are NOT a gap-free daily sequence
+        first, last = df.Date.iloc[0], df.Date.iloc[-1]
+        dts = [first - pd.Timedelta(days=k) for k in (4000, 3650, 3000, 2999, 800, 40, 3)] + [last + pd.Timedelta(days=k) for k in (2, 30, 400)]
+        extra = pd.DataFrame({"MinTemp": [2.5] * len(dts), "MaxTemp": [41.0] * len(dts), "Precipitation": [88.0] * len(dts), "ReferenceET": [8.8] * len(dts), "Date": dts})
+        df = pd.concat([extra, df], ignore_index=True).sort_values("Date").reset_index(drop=True)
+    if tr.get("gap_before"):            # a month of records missing BEFORE the window
+        g0 = pd.to_datetime(tr["gap_before"]) - pd.Timedelta(days=200)
+        df = df[~((df.Date >= g0) & (df.Date < g0 + pd.Timedelta(days=28)))]
     if tr.get("trim_before"):
         df = df[df.Date >= pd.to_datetime(tr["trim_before"])]
     if tr.get("trim_after"):
@@ -144,11 +152,18 @@ def perturb_weather(df, p):
 
 
 def build(sc, objs=None):
+    """model of scenario sc.  sc['_prelude'] = {start, end, ...}: ANOTHER model (same user objects, the listed keys overridden - typically another
+    window) is built from the very same objects and run to termination first; the returned model is then built from those used objects."""
     import scenario as S
     if objs is None:
         objs = S.make_objects(sc)
         objs["weather_df"] = perturb_weather(objs["weather_df"], sc.get("_perturb"))
         objs["weather_df"] = transform_weather(objs["weather_df"], sc.get("_wx"))
+        if sc.get("_prelude"):
+            pre = dict(sc)
+            pre.update(sc["_prelude"])
+            m0 = S.make_model(pre, objs)
+            m0.run_model(till_termination=True)
     return S.make_model(sc, objs), objs
 
 
